@@ -129,14 +129,33 @@ class Interner:
         return self.t.setdefault(key, len(self.t) + 1)
 
 
+MAX_GRID_ROWS = 128     # larger matrices are logged as opaque (comparison codes only)
+BIG = 4000              # cells: beyond, the codes are computed with vectorised exact double comparisons
+
+
 def unit_log(u):
     u = np.asarray(u, dtype=float)
     ok = bool(np.isfinite(u).all()) and u.ndim == 2
-    ugrid = ok and all(float(v * G).is_integer() and abs(v) < 2 ** 20 for v in u.flat)
-    ulo = min((_cmp(float(v), 0.0) if np.isfinite(v) else -1) for v in u.flat) if u.size else 0
-    uhi = max((_cmp(float(v), 1.0) if np.isfinite(v) else 1) for v in u.flat) if u.size else 0
-    return {"ugrid": bool(ugrid), "u": [[int(v * G) for v in row] for row in u] if ugrid else [],
+    ugrid = bool(ok and u.shape[0] <= MAX_GRID_ROWS and np.all(np.abs(u) < 2 ** 20) and np.all(np.mod(u * G, 1.0) == 0.0))
+    if u.size and ok:
+        # comparisons of doubles with 0 and 1 are exact
+        ulo = 1 if u.min() > 0.0 else (0 if u.min() == 0.0 else -1)
+        uhi = 1 if u.max() > 1.0 else (0 if u.max() == 1.0 else -1)
+    elif u.size:
+        ulo, uhi = -1, 1
+    else:
+        ulo, uhi = 0, 0
+    return {"ugrid": ugrid, "u": [[int(v * G) for v in row] for row in u] if ugrid else [],
             "ulo": ulo, "uhi": uhi}
+
+
+def _image_code(v, uu, lb, ub, isint, tol):
+    fx = Fraction(v)
+    y = lb + Fraction(uu) * (ub - lb)      # exact image of the unit sample
+    dist = abs(fx - y)
+    if isint:
+        return 0 if (v.is_integer() and 2 * dist <= 1) else (1 if (v.is_integer() and dist <= Fraction(1, 2) + tol) else 2)
+    return 0 if dist == 0 else (1 if dist <= tol else 2)
 
 
 def sample_log(u, x, comps):
@@ -146,15 +165,36 @@ def sample_log(u, x, comps):
     u = np.asarray(u, dtype=float)
     d = len(comps)
     finite = bool(np.isfinite(x).all())
-    xgrid = finite and x.ndim == 2 and all(float(v * U).is_integer() and abs(v) < 2 ** 20 for v in x.flat)
+    xgrid = bool(finite and x.ndim == 2 and x.shape[0] <= MAX_GRID_ROWS and np.all(np.abs(x) < 2 ** 20)
+                 and np.all(np.mod(x * U, 1.0) == 0.0))
     cols = []
     shape_ok = x.ndim == 2 and u.ndim == 2 and x.shape == u.shape and x.shape[1] == d
+    big = x.size > BIG and finite and shape_ok and bool(np.isfinite(u).all())
     for k in range(x.shape[1] if x.ndim == 2 else 0):
         if k >= d:
             cols.append([0, 0, 0, 2])
             continue
         lb, ub, isint = Fraction(comps[k][0]), Fraction(comps[k][1]), comps[k][2]
         tol = ULP4 * max(abs(lb), abs(ub), 1)
+        if big:
+            # bounds are dyadic doubles: comparing doubles with them is exact; the image code is computed
+            # exactly (Fraction) only for the cells whose double image differs from the sample
+            col, ucol = x[:, k], u[:, k]
+            flb, fub = float(lb), float(ub)
+            lo = 1 if col.min() > flb else (0 if col.min() == flb else -1)
+            hi = 1 if col.max() > fub else (0 if col.max() == fub else -1)
+            intg = int(bool(np.all(np.mod(col, 1.0) == 0.0)))
+            if isint:
+                rows = range(len(col))
+            else:
+                w = fub - flb
+                exact_prod = (w == 1.0 and flb == 0.0)      # then flb + ucol * w is exactly the image
+                rows = np.nonzero(col != flb + ucol * w)[0] if exact_prod else range(len(col))
+            img = 0
+            for r in rows:
+                img = max(img, _image_code(float(col[r]), float(ucol[r]), lb, ub, isint, tol))
+            cols.append([lo, hi, intg, img])
+            continue
         lo, hi, intg, img = 1, -1, 1, 0
         for r in range(x.shape[0]):
             v = float(x[r, k])
@@ -169,15 +209,9 @@ def sample_log(u, x, comps):
             if not shape_ok or not np.isfinite(u[r, k]):
                 img = 2
                 continue
-            y = lb + Fraction(float(u[r, k])) * (ub - lb)      # exact image of the unit sample
-            dist = abs(fx - y)
-            if isint:
-                code = 0 if (v.is_integer() and 2 * dist <= 1) else (1 if (v.is_integer() and dist <= Fraction(1, 2) + tol) else 2)
-            else:
-                code = 0 if dist == 0 else (1 if dist <= tol else 2)
-            img = max(img, code)
+            img = max(img, _image_code(v, float(u[r, k]), lb, ub, isint, tol))
         cols.append([lo, hi, intg, img])
-    return {"xgrid": bool(xgrid), "x": [[int(v * U) for v in row] for row in x] if xgrid else [],
+    return {"xgrid": xgrid, "x": [[int(v * U) for v in row] for row in x] if xgrid else [],
             "cols": cols, "count": int(x.shape[0]) if x.ndim >= 1 else 0}
 
 
@@ -285,7 +319,8 @@ def run_scenario(sc):
                 xa = xa.reshape((len(xa), -1)) if xa.ndim == 1 else np.zeros((0, d))
             end.update(sample_log(state["unit"], xa, comps))
             end["sid"] = sid(xa)
-            end["rowids"] = [rid(row) for row in xa]
+            # (row identities are only needed for the database order after execute)
+            end["rowids"] = [rid(row) for row in xa] if api == "execute" else []
             end["keys"] = [rid(k) for k in keys]
         events.append(end)
     return {"id": sc["id"], "space": space_json(comps), "flag0": bool(sc["flag0"]), "events": events}
